@@ -9,6 +9,10 @@ from ..core import watchdog, Timeout
 from ..oracle import Oracle, OracleMismatch
 
 
+class _InjectedFault(Exception):
+    pass
+
+
 def _isint(x):
     """an integer of any kind (Python or numpy), but not a bool"""
     import numbers
@@ -171,12 +175,18 @@ def _execute(case):
     if case["gen"] == "network":
         style = style % 2             # the network conversion keys dictionaries by edge: inner pairs must be hashable tuples
     builds, names, motifs_rec = [], [], []
+    fault = {"at": None, "n": 0, "what": "build"}      # crash point: the k-th callback of the PRIOR call raises (Abort in StubMatching.tla)
     for j, (orbits, shape, bare) in enumerate(cfg["motifs"]):
         size, pairs = get_shape(shape)
         lib = lib_callback(shape) if isinstance(shape, str) and (not cfg["custom"] or not bare) and not case.get("simple_builder") else None
 
         def build(vs, j=j, pairs=pairs, bare=bare, lib=lib, style=style):
             vs = list(vs)
+            if fault["at"] is not None and fault["what"] == "build":
+                fault["n"] += 1
+                if fault["n"] >= fault["at"]:
+                    fault["at"] = None
+                    raise _InjectedFault("build callback raised (injected crash point)")
             if lib is not None:
                 ret = lib(list(vs))
             elif bare:
@@ -250,17 +260,23 @@ def _execute(case):
         return alg
     holder = {}
     if case.get("pre_jds"):
-        # history: the SAME generator object already produced a graph (for the same or another sequence) before the judged call
+        # history: the SAME generator object already produced a graph (for the same or another sequence) before the judged call;
+        # with pre_fault = k that earlier call was ABORTED by its k-th build callback raising, and the caller kept the object
         try:
             holder["alg"] = make()
             pre_list = [tuple(j) for j in case["pre_jds"]]
-            Oracle().run_seeded(case.get("pre_seed", 7), lambda: holder["alg"].random_clustered_graph(pre_list))
+            fault.update({"at": case.get("pre_fault"), "n": 0})
+            try:
+                Oracle().run_seeded(case.get("pre_seed", 7), lambda: holder["alg"].random_clustered_graph(pre_list))
+            except _InjectedFault:
+                rec["pre_aborted"] = True
             if case.get("pre_same_list"):
                 # the caller edits the very same list object in place between the two calls
                 pre_list[:] = jds_arg
                 jds_arg = pre_list
         except Exception:
             holder.pop("alg", None)
+        fault["at"] = None
         del calls[:]
 
     def go():
